@@ -183,6 +183,39 @@ func handle(r *Req) (resp Resp) {
 			}
 		}
 		return tabResult(res, errc)
+	case "btabn":
+		// tabular export of a built root node (statement, or pair combination of statements)
+		root, e := sx.ParseNode(r.Tree)
+		if e != nil {
+			return Resp{"bad": e.Error()}
+		}
+		sx.LinkEmbedded(root)
+		setTabGlobals(r)
+		res := tabular.GenerateTabularOutputFromParsedStatements([]*tree.Node{root}, "", r.Orig, r.Stmt, r.Id, "", true, tree.AGGREGATE_IMPLICIT_LINKAGES,
+			tabular.CellSeparator, dflt(r.Fmt, tabular.OUTPUT_TYPE_CSV), r.Hdr, dflt(r.PO, tabular.ORIGINAL_STATEMENT_OUTPUT_NONE), dflt(r.PI, tabular.IG_SCRIPT_OUTPUT_NONE))
+		errc := tree.ParsingError{ErrorCode: tree.PARSING_NO_ERROR}
+		for _, x := range res {
+			if x.Error.ErrorCode != tree.PARSING_NO_ERROR {
+				errc = x.Error
+				break
+			}
+		}
+		return tabResult(res, errc)
+	case "tabd":
+		// endpoint-level: the parsed tree (dumped before exporting) together with the endpoint's result
+		setTabGlobals(r)
+		nodes, perr := parser.ParseStatement(tabular.CleanInput(r.Stmt, tabular.CellSeparator))
+		d := make([]string, len(nodes))
+		for i, n := range nodes {
+			d[i] = sx.DumpNode(n, 0)
+		}
+		setTabGlobals(r)
+		res, err := endpoints.ConvertIGScriptToTabularOutput(r.Orig, r.Stmt, r.Id, dflt(r.Fmt, tabular.OUTPUT_TYPE_CSV), "", true, r.Hdr,
+			dflt(r.PO, tabular.ORIGINAL_STATEMENT_OUTPUT_NONE), dflt(r.PI, tabular.IG_SCRIPT_OUTPUT_NONE))
+		resp := tabResult(res, err)
+		resp["perr"] = perr.ErrorCode
+		resp["nodes"] = d
+		return resp
 	case "fn":
 		return handleFn(r)
 	}
